@@ -375,7 +375,11 @@ func runC14(c *fw.Ctx) {
 		}
 		c.Count("objects", 1)
 		c.Outcome(k.name)
-		for _, tr := range c14Trailers {
+		trailers := c14Trailers
+		if c.Thorough() && (k.name == "Timestamp" || k.name == "Duration") && k.enc[3] != 0 {
+			trailers = c14Trailers[:1] // whole-domain sweep: the trailer variants on every 256th value only
+		}
+		for _, tr := range trailers {
 			sig, desc, n := c14Eval(k, -1, tr)
 			c.Count("evaluations", n)
 			if sig != "" {
